@@ -293,6 +293,9 @@ def features(tree):
             if call_in_if_branch(x, shortcircuit=True):
                 f.add("call-in-lazily-evaluated-position")
                 f.add("call-in-short-circuit-operand")
+            lf = lazy_funcs(x)
+            f.update("br:" + n for n in lf["br"])
+            f.update("sc:" + n for n in lf["sc"])
             if nested_if(x):
                 f.add("nested-conditional-expression")
             if nested_call(x):
@@ -300,10 +303,38 @@ def features(tree):
     return f
 
 
-def lazy_key(feats):
+def lazy_key(feats, extra=()):
+    """Which lazily evaluated position the extra calls were hoisted out of."""
+    names = {c[0] for c in extra}
+    sc = {f[3:] for f in feats if f.startswith("sc:")}
+    br = {f[3:] for f in feats if f.startswith("br:")}
+    if names and names <= sc and not names <= br:
+        return "short-circuit-operand-hoisted"
+    if names and names <= br and not names <= sc:
+        return "conditional-expression-branch-operand-hoisted"
     if "call-in-conditional-expression-branch" in feats:
         return "conditional-expression-branch-operand-hoisted"
     return "short-circuit-operand-hoisted"
+
+
+def lazy_funcs(e, where=None, acc=None):
+    """Function names called in lazily evaluated positions: acc = {"br": set, "sc": set}."""
+    if acc is None:
+        acc = {"br": set(), "sc": set()}
+    if e[0] == "call" and where:
+        acc[where].add(e[1])
+    if e[0] == "if":
+        lazy_funcs(e[1], where, acc)
+        lazy_funcs(e[2], "br", acc)
+        lazy_funcs(e[3], "br", acc)
+    elif e[0] in ("and", "or"):
+        lazy_funcs(e[1], where, acc)
+        for x in e[2:]:
+            lazy_funcs(x, "sc", acc)
+    else:
+        for x in _kids(e):
+            lazy_funcs(x, where, acc)
+    return acc
 
 
 def _kids(e):
@@ -353,6 +384,7 @@ def check_tree(tree, valuations, rec, wit, only_pass=None):
     from vf.treewalk import show
     names_in, ids_in = tree_names(tree)
     feats = features(tree)
+    kf = {x for x in feats if ":" not in x}        # features that may appear in mechanism keys
     changed_any = False
     for pname in ([only_pass] if only_pass else PASSES):
         w = dict(wit, **{"pass": pname})
@@ -404,7 +436,7 @@ def check_tree(tree, valuations, rec, wit, only_pass=None):
                 b.run(out)
             except ReadBeforeSet as r:
                 if r.name in intro_names:
-                    key = "+".join(sorted(feats)) or "plain"
+                    key = "+".join(sorted(kf)) or "plain"
                     rec.violation(f"{pname}:introduced-variable-read-before-set-on-{key}",
                                   f"{r.name!r} is read before any statement sets it\n{s_out}", dict(w, valuation=vi))
                 else:
@@ -413,7 +445,7 @@ def check_tree(tree, valuations, rec, wit, only_pass=None):
                 bad = True
                 break
             except (Undefined, OverflowError, ZeroDivisionError, TypeError, ValueError) as ex:
-                key = "+".join(sorted(feats)) or "plain"
+                key = "+".join(sorted(kf)) or "plain"
                 mech = f"{pname}:transformed-program-fails-where-original-does-not-on-{key}"
                 if "call-in-lazily-evaluated-position" in feats:
                     # something hoisted out of a branch that is not taken is evaluated anyway
@@ -432,7 +464,7 @@ def check_tree(tree, valuations, rec, wit, only_pass=None):
                     bad = True
                     break
                 if n in a.store and not values_equal(a.store[n], b.store[n], rtol=1e-12):
-                    key = "+".join(sorted(feats)) or "plain"
+                    key = "+".join(sorted(kf)) or "plain"
                     rec.violation(f"{pname}:value-changed-on-{key}",
                                   f"{n!r}: original {a.store[n]!r}, transformed {b.store[n]!r}\ninput:\n{s_in}"
                                   f"output:\n{s_out}", dict(w, valuation=vi))
@@ -450,7 +482,7 @@ def check_tree(tree, valuations, rec, wit, only_pass=None):
                 key = "+".join(sorted(feats & {"call-in-lazily-evaluated-position"})) or "plain"
                 mech = f"{pname}:external-calls-changed-on-{key}"
                 if key != "plain" and not missing:
-                    mech = f"{pname}:" + lazy_key(feats)
+                    mech = f"{pname}:" + lazy_key(feats, extra)
                 rec.violation(mech,
                               f"extra calls {extra[:3]}, missing calls {missing[:3]}\ninput:\n{s_in}output:\n{s_out}",
                               dict(w, valuation=vi))
